@@ -107,8 +107,9 @@ class World:
         self.pulses = [gen_pulse(rng) for _ in range(10)]
         self.ids = list(self.device.channels.keys())
         self.dmm_ids = list(self.device.dmm_channels.keys())
-        self.setpoints = [(rng.choice([1.0, 2.5, 12.5]), rng.choice([0.0, -2.0, 3.0]), rng.choice([0.0, 0.0, -20.0]))
-                          for _ in range(3)]
+        # distinct amplitudes: the projection recognises a block's setpoint by (amp_on, detuning_on)
+        self.setpoints = [(a, rng.choice([0.0, -2.0, 3.0]), rng.choice([0.0, 0.0, -20.0]))
+                          for a in rng.sample([1.0, 2.5, 12.5, 0.5], 3)]
 
     def program(self, n_calls):
         rng = self.rng
